@@ -171,7 +171,7 @@ fn check_arm<H: Handle>(cx: &mut Ctx, arm: &str, first: Result<prometheus::Resul
     let fq = dm[0].fq_name.clone();
     let (in_target, in_other) = match target.custom {
         Some(r) => (extract_all(&r.gather()), extract_all(&prometheus::gather())),
-        None => (extract_all(&prometheus::gather()), extract_all(&other.gather())),
+        None => (extract_all(&if amount % 2 == 0 { prometheus::gather() } else { prometheus::default_registry().gather() }), extract_all(&other.gather())),
     };
     let exposed = match target.prefix {
         Some(p) => format!("{}_{}", p, fq),
